@@ -26,8 +26,17 @@ pub struct RouteContext { pub route: Route }
 impl RouteContext { pub fn route(&self) -> &Route { &self.route } }
 pub enum JobKind { Single(u8), Multi(u8) }
 pub trait Random { fn uniform_int(&self, min: i32, max: i32) -> i32; }
-/// stochastic sampling (utils::iterators::sample_search) is NOT under contract: the property speaks of the exhaustive mode
-pub trait SampleSearch: Iterator + Sized { fn sample_search<R, FM, FI, FC>(self, _: usize, _: Arc<dyn Random>, _: FM, _: FI, _: FC) -> Option<R> where FM: FnMut(Self::Item) -> R, FI: Fn(&Self::Item) -> usize, FC: Fn(&R, &R) -> bool { unimplemented!() } }
+/// stochastic sampling (utils::iterators::sample_search: which legs are probed) is NOT under contract; this stand-in records
+/// what it is GIVEN - the sequence of items and the index the caller's index function assigns to each - and finds nothing
+pub static mut OFFERED: [usize; 24] = [usize::MAX; 24];
+pub static mut OFFERED_N: usize = 0;
+pub trait SampleSearch: Iterator + Sized {
+    #[allow(static_mut_refs)]
+    fn sample_search<R, FM, FI, FC>(self, _: usize, _: Arc<dyn Random>, _: FM, index_fn: FI, _: FC) -> Option<R> where FM: FnMut(Self::Item) -> R, FI: Fn(&Self::Item) -> usize, FC: Fn(&R, &R) -> bool {
+        for item in self { unsafe { OFFERED[OFFERED_N] = index_fn(&item); OFFERED_N += 1; } }
+        None
+    }
+}
 impl<T: Iterator> SampleSearch for T {}
 
 // ------------------------------------------------------------------ code under contract (verbatim from /repo)
@@ -86,6 +95,22 @@ mod h {
         while i < cnt { assert!(seen[i] == skip + i, "post_legs_offered_in_tour_order"); i += 1; }
         let broke = stop_at >= skip && stop_at < total_legs;
         assert!(r == 100 + (if broke { cnt - 1 + 1000 } else { cnt }), "post_accumulator_threaded_and_returned");
+    }
+    /// C04/C06 (multi-task jobs: a later task is only tried behind the previous one): also in the stochastic mode the sampler
+    /// is given exactly the legs from `skip` on, once each, in tour order, indexed from 0
+    struct Rnd; impl Random for Rnd { fn uniform_int(&self, min: i32, _: i32) -> i32 { min } }
+    #[kani::proof] #[kani::unwind(24)]
+    #[allow(static_mut_refs)]
+    fn stochastic_sampler_is_given_exactly_the_legs_from_skip() {
+        let rc = RouteContext { route: Route { tour: tour(19, true) } };          // 20 legs
+        let skip: usize = kani::any(); kani::assume(skip <= 4);                      // >= 16 legs left: the sampling branch (threshold 16 for a multi job)
+        let r = LegSelection::Stochastic(Arc::new(Rnd)).sample_best(&rc, &JobKind::Multi(0), skip, 7usize, |_: Leg, acc: usize| ControlFlow::Continue(acc), |_: &usize, _: &usize| true);
+        assert!(r == 7, "post_nothing_found_returns_the_initial_value");
+        unsafe {
+            assert!(OFFERED_N == 20 - skip, "post_sampler_given_every_leg_from_skip_once");
+            let mut i = 0;
+            while i < OFFERED_N { assert!(OFFERED[i] == i, "post_sampler_indexes_legs_from_zero_in_tour_order"); i += 1; }
+        }
     }
     #[kani::proof] #[kani::unwind(7)] fn exhaustive_closed_2() { exhaustive(2, true) }
     #[kani::proof] #[kani::unwind(7)] fn exhaustive_open_2() { exhaustive(2, false) }
